@@ -185,6 +185,39 @@ example :
       (run cfg d a).tasks = [] ∧ (run cfg d b).tasks = [] ∧ get cfg (run cfg d a) 2 = some (.whole 6) := by
   decide
 
+/-! ## the command handlers in front of the store (cmd.rs) -/
+
+/-- The `PutLocalRecord` handler's header → record-type mapping, regenerated from its `match` (wire tags from
+`RecordKind`'s serializer): Chunk ↦ Chunk, Transaction / Register ↦ NonChunk(content hash), Scratchpad ↦ Scratchpad,
+every kind that still carries a payment is refused. The model's `putLocalRecordType` reads this table, and component
+`store_cmd` runs the real handler against it. -/
+theorem put_local_record_types :
+    Gen.Store.localPutTable =
+      [(0, none), (1, some 0), (2, some 2), (3, some 2), (4, none), (5, some 1), (6, none), (7, none)] ∧
+    putLocalRecordType 3 = some .chunk ∧ putLocalRecordType 4 = some (.nonChunk (.whole 4)) ∧
+    putLocalRecordType 7 = some .scratchpad ∧ putLocalRecordType 10 = none ∧ putLocalRecordType 2 = none := by
+  decide
+
+/-- **No completion notification is lost.** `send_local_swarm_cmd` spawns a task that awaits room on the local
+command channel (regenerated: `notificationSenderWaits`), so the channel's capacity is no part of the model: a
+write task that runs always leaves its `AddLocalRecordAsStored` pending, every other pending notification stays,
+and handling one notification removes only that one. -/
+theorem no_notification_lost (dist : Nat → Nat) (s : St) (id k v : Nat) (rt : RType)
+    (ht : lookup id s.tasks = some (.write k v rt)) (hl : legalRun s.tasks id (.write k v rt) = true) :
+    Gen.Store.notificationSenderWaits = true ∧
+    (id, (⟨k, rt⟩ : Note)) ∈ (runTask s id).1.notes ∧ (∀ n ∈ s.notes, n ∈ (runTask s id).1.notes) ∧
+    (∀ id' n, n ∈ s.notes → n.1 ≠ id' → n ∈ (deliver dist s id').1.notes) := by
+  refine ⟨by decide, ?_, ?_, ?_⟩
+  · simp [runTask, ht, hl]
+  · intro n hn; simp [runTask, ht, hl, hn]
+  · intro id' n hn hne
+    unfold deliver
+    split
+    · exact hn
+    · split
+      · exact mem_erase.mpr ⟨hn, hne⟩
+      · exact hn
+
 /-- non-vacuity: three keys at capacity 2 with an overwrite (key 1), an eviction (key 3 is the farthest
 when key 2 arrives) and a removal (key 2), under a schedule that completes the tasks of different keys
 out of spawn order; settled at the end: key 1 reads back its latest value, keys 2 and 3 are gone. -/
@@ -216,6 +249,8 @@ example : nrwifB (Cfg.shipped 4 2) (fun k => k) (init (Cfg.shipped 4 2) (fun k =
 
 #print axioms SafeNet.Props.C01.get_sound
 #print axioms SafeNet.Props.C01.settled_readback
+#print axioms SafeNet.Props.C01.put_local_record_types
+#print axioms SafeNet.Props.C01.no_notification_lost
 #print axioms SafeNet.Props.C01.settled_readback_all
 #print axioms SafeNet.Props.C01.schedule_independent_partial
 #print axioms SafeNet.Props.C01.schedule_dependent_at_capacity_witness
